@@ -14,7 +14,7 @@ EXPLANATION = (
     "announced waiter (counter < 0) and bumps the counter only after a successful wake, or CASes a non-negative value up "
     "by one — with no exit that neither woke nor incremented.  The inequalities of the property as runtime invariants are not decided.")
 NOT_DECIDED = ["the admission inequalities as runtime invariants over all interleavings"]
-ASSUMPTIONS = ["FIBER_SUCCESS = 1, FIBER_ERROR = 0", "the counter does not overflow: value + pending posts < INT_MAX (a post at INT_MAX wraps; hunt/H05 finding 2 -- not decided by these rules)"]
+ASSUMPTIONS = ["FIBER_SUCCESS = 1, FIBER_ERROR = 0", "wait side: fewer than 2^31 fibers wait on one semaphore (the counter goes negative by one per waiter)"]
 S = "fiber_semaphore"
 
 
@@ -208,12 +208,30 @@ def run(ctx):
         if f.find_path(c.node, lambda n: n is c.node, edge_ok=lambda b, i: not nonneg_test(b, i)) is not None:
             bad = bad or "after a failed CAS post retries without re-testing that the refreshed value is still >= 0 (it would bump a negative counter past an announced waiter)"
         # no exit that neither woke+incremented nor won the CAS
-        atom = atom_from([(lambda n: n is c.node, 0), (iswk, 0)])
-        if reach(f, ["exit"], atom):
-            bad = bad or "post can return although the CAS failed and nobody was woken"
+        for v in (-1, 0, 1):
+            atom = atom_from([(lambda n: n is c.node, 0), (iswk, 0), (isld, v)])
+            if reach(f, ["exit"], atom):
+                bad = bad or "post can return although the CAS failed and nobody was woken (counter %d)" % v
         if not order_ge(c.order or "relaxed", "release"):
             bad = bad or "CAS order %s (needs release)" % c.order
         o.check(bad is None, "table -2..2 x wake result", bad, site=c.node, construct="post")
+
+    o = ctx.ob("post.overflow", f, "with the counter at INT_MAX post does not reach its increment (it reports the overflow instead): no compare-exchange to "
+               "counter + 1 and no fetch-add is reachable for that value",
+               "INT_MAX + 1 wraps to INT_MIN: 2^32 units vanish, trywait refuses although units are available, and every later post takes the negative value "
+               "for an announced waiter and spins for ever trying to wake a fiber that does not exist")
+    IMAX = 2 ** 31 - 1
+    incs = [s for s in ops if s.aop in ("cas", "fetch_add")]
+    if not incs:
+        raise AnalysisBroken("C06 post.overflow: no increment found in post")
+    cvs = [strip(s.expected) for s in incs if s.aop == "cas" and s.expected is not None]
+    vdid = {strip(e.kids[0]).did for e in cvs if e is not None and e.k == "UnaryOperator" and e.op == "&" and e.kids}
+    isld2 = lambda n: any(n is l.node for l in lds) or any(is_var_load(d)(n) for d in vdid)
+    atom = atom_from([(isld2, IMAX)] + [(lambda n, w=w: n is w, 0) for w in wakes])
+    hit = [s for s in incs if reach(f, [s.node], atom)]
+    o.check(not hit, "counter = INT_MAX: %d increment site(s) unreachable" % len(incs),
+            "`%s` is reachable with the counter at INT_MAX: the post wraps the value to INT_MIN and still reports success" % (hit[0].node.text[:80] if hit else ""),
+            site=hit[0].node if hit else None, construct="post at INT_MAX")
 
     o = ctx.ob("counter.writers", "", "`counter` is modified after init only by the atomic operations of wait / trywait / post",
                "a plain store forgets announced waiters or units")
